@@ -348,6 +348,14 @@ func renderVal(n *GNode, v pqfile.Val) string {
 	case pqfile.TFloat, pqfile.TDouble:
 		return fmt.Sprintf("0x%x", v.U)
 	}
+	if n.Elem != nil {
+		switch n.Elem.Kind() {
+		case reflect.Int32:
+			return fmt.Sprintf("%d", int32(uint32(v.U)))
+		case reflect.Uint32, reflect.Uint64:
+			return fmt.Sprintf("%d", v.U)
+		}
+	}
 	return fmt.Sprintf("%d", int64(v.U))
 }
 
